@@ -1071,6 +1071,8 @@ func (e *Enc) loopHead(li *loopInfo, st *State, phiIn map[ssa.Value]Val) {
 		v := e.havocVal(phi.Type(), "v_"+sanitize(phi.Name())+"_it")
 		e.vals[phi] = v
 		e.emitAssert(-1, e.typeFacts(v, st))
+		// the address of a non-escaping local never flows into a phi (computeNonEscaping counts that as an escape)
+		e.emitAssert(-1, e.notLocal(v))
 	}
 	// auto invariants (monotone counters): phi >= init when the back-edge value is phi + positive constant
 	e.autoInvariants(li, phiIn, st)
